@@ -3105,18 +3105,8 @@ static int get_first_char(struct scanner_s *scanner) {
             /* recover by accepting the character (for the moment) */
         } else if (ch == UCHAR_CR) { /* convert CR and CRLF to LF */
             *scanner->buffer = UCHAR_NL;
-
-            /* try to convert one more character, to check for CRLF */
-            nread = scanner->read_func(scanner->char_source, scanner->buffer + 1, scanner->buffer_size - 1,
-                    &read_error);
-            if (nread < 0) {
-                return read_error;
-            } else if (nread == 0) {
-                scanner->at_eof = CIF_TRUE;  /* but don't return CIF_EOF, because we do provide one character */
-            } else if (*(scanner->buffer + 1) != UCHAR_NL) {
-                scanner->buffer_limit += 1;
-            } /* else the buffer limit will overall be increased by 1 only, effectively consuming the NL */
-
+            /* if an LF follows then get_more_chars() will drop it */
+            scanner->cr_pending = CIF_TRUE;
         }
 
         scanner->buffer_limit += 1;
